@@ -117,9 +117,18 @@ def current_skeleton():
 
     def elide(tree):
         try:
-            return py2coq_kernel.elide(tree)
+            out = py2coq_kernel.elide(tree)
         except Exception:
             return {}
+        # statements the top-level translator INTERPRETS (scalar / index / coordinate statements, raises, the conditionals
+        # around them) are judged by Bridge/SolverTopBridge.v, not by their text; a run of them is one placeholder line
+        try:
+            import py2coq_solvertop
+            for k, v in py2coq_solvertop.elide(tree).items():
+                out.setdefault(k, v)
+        except Exception:
+            pass
+        return out
 
     return skeleton.module_skeleton(SOLVER(), [SST, IVP], SLICES + ZSLICES, elide)
 
@@ -157,6 +166,13 @@ def run_kernel(ctx):
     return ctx._kernel_done
 
 
+def run_top(ctx):
+    """whole-function tie of the TOP LEVEL of steady_state_transport_solver (harness/py2coq_solvertop.py): what holds the
+    slices, the kernel, the plumbing pipelines and the cache block together, bridged to the model for all arguments"""
+    import py2coq_solvertop
+    return py2coq_solvertop.run(ctx)
+
+
 def check_skeleton(ctx):
     """every statement of solver.py's two functions and its module level is either bridged or exactly the expected one"""
     import json
@@ -177,6 +193,7 @@ def check_skeleton(ctx):
 def run(ctx):
     """translate + compile + bridge; registers proof obligations on ctx"""
     check_skeleton(ctx)  # runs the whole-function tie of the kernel first (run_kernel)
+    run_top(ctx)  # top level of steady_state_transport_solver -> GenSolverTop.v -> Bridge/SolverTopBridge.v, Bridge/EndToEnd.v
     kernel_ok = bool(getattr(ctx, "_kernel_done", False))
     ok_step = True
     try:
